@@ -181,7 +181,7 @@ fn preorder_check(ctx: &Ctx, rep: &Report, label: &str, n: usize, cmp: &(dyn Fn(
 }
 
 fn random_version(r: &mut Rng, base: Option<&str>) -> String {
-    const SEG: [&str; 34] = ["99999999999999999999", "18446744073709551616", "18446744073709551615", "000000000000000000000001", "340282366920938463463374607431768211456", "9223372036854775808", "0", "00", "1", "01", "001", "9", "10", "123", "20101121", "a", "b", "rc", "RC", "git", "alpha", "Z", ".", "..", "-", "_", "+", "~", "~~", "^", "^^", "é", "~^", "^~"];
+    const SEG: [&str; 38] = ["²", "١", "Ⅷ", "ß", "99999999999999999999", "18446744073709551616", "18446744073709551615", "000000000000000000000001", "340282366920938463463374607431768211456", "9223372036854775808", "0", "00", "1", "01", "001", "9", "10", "123", "20101121", "a", "b", "rc", "RC", "git", "alpha", "Z", ".", "..", "-", "_", "+", "~", "~~", "^", "^^", "é", "~^", "^~"];
     let mut s = String::new();
     if let Some(b) = base {
         // shared prefix of random length (cut at a char boundary)
